@@ -725,7 +725,7 @@ func runCtx(r *vk.Run, c CtxCase) *vk.Fail {
 
 // ---- the test -----------------------------------------------------------------------------------------------
 
-const rule = "built with the Go race detector (halt on first report; the case noted last is the replay). In every phase the CONCURRENT part runs first and the sequential baseline after it (what the engine sets up once per process, on first use, is then first used by goroutines running at once), and between their start and their end the goroutines call nothing but plush: contexts, numbered strings and Go values are built before the start (a lock or an atomic of the harness inside them would order their accesses for the detector). (A) one parsed template executed from G in {2,4,8,16,32} goroutines (enumerations start with 32) x {own root context, child of one shared parent} x cache {off: the very same *Template and its Clones; cold; warm} x 3 rounds. Templates: 9 fixed snippets (template-local arrays and hashes with index assignment, accumulating assignment in loops, assignment to names that live in the shared parent, contentFor/contentOf, built-in helpers and iterators, ~= and == against a value that differs in every execution); 9 wide snippets that select fields and methods through values, pointers, indexes, map entries and call results (of a record that is the same in every execution, of one whose strings differ in every execution, and of a value whose Go TYPE is new in every execution), print every kind of value (time with and without TIME_FORMAT, HTML, Stringer, HTMLer, typed slices, maps), call EVERY built-in helper (also with structs and with a block), application helpers (variadic, option map, one that renders a text through its helper context), forgive unknown identifiers in every tolerated position, include partials (nested, with data, with a layout, in a loop; the text of every partial starts with a comment that is new in every run, so partial texts are always cold), nest block helpers three deep and call a function of the template recursively; calls nested 900 deep (the bound is 1000); 12 templates that FAIL (unknown identifier after forgiven ones, in a loop on line 4, in a block, in a function; division by zero; index out of bounds; bad pattern; helper error; missing partial; partial that does not parse; wrong argument type; missing member) and 4 texts that do not parse - their error texts must equal the sequential ones; 10 boundary templates (empty, text only, comment only, one tag, one silent tag, 30 nested ifs, 4 nested loops, 300 tags, 64 KB of text, non-ASCII); random all-construct programs (shared generator, with partials and block helpers) with a snippet of any pool appended. (A2) page + layout: every goroutine executes a page that stores blocks with contentFor and then, on the same context, a layout that renders them with contentOf. (A3) prelude: a template executed ONCE, alone, on the shared parent before the goroutines start leaves 21 functions, an array and a hash there; the children call and read them (4 templates; every function value is one object shared by all children). (A4, last phase, class stored-block-in-shared-parent) the prelude stores blocks with contentFor in the shared parent, the children render them with contentOf (with data that differs per execution, in loops, with a default block). A child of the shared parent is given the values that differ per execution itself. Every concurrent result must equal the sequential result; a sequential result that fails is taken twice and the case dropped if it is not reproducible alone. (B) concurrent Parse+Exec / Render / RenderR / BuffaloRenderer of 1-6 equal and different texts with the cache on (first goroutine cold, the rest warm), texts that do not parse among them, optionally with CacheSet under keys of the goroutine. (C) 2-16 goroutines running random mixes of 15 operations - Set / Value / Has / New / New().Set / New().Value / Value(built-in) / Exec on a child, all on ONE shared context, and Value / Set / Has / New().Value / Exec on a grandchild on ONE shared child of it, Value with a key that is no string (called, not judged) - with invariants on what they may observe (a value set on a child never shows in the parent). Non-trivial = G >= 2 and the template uses >= 3 kinds of construct (A; page+layout and prelude count as 3), every B and C case; distinct by case."
+const rule = "built with the Go race detector (halt on first report; the case noted last is the replay). In every phase the CONCURRENT part runs first and the sequential baseline after it (what the engine sets up once per process, on first use, is then first used by goroutines running at once), and between their start and their end the goroutines call nothing but plush: contexts, numbered strings and Go values are built before the start (a lock or an atomic of the harness inside them would order their accesses for the detector). (A) one parsed template executed from G in {2,4,8,16,32} goroutines (enumerations start with 32) x {own root context, child of one shared parent} x cache {off: the very same *Template and its Clones; cold; warm} x 3 rounds. Templates: 9 fixed snippets (template-local arrays and hashes with index assignment, accumulating assignment in loops, assignment to names that live in the shared parent, contentFor/contentOf, built-in helpers and iterators, ~= and == against a value that differs in every execution); 9 wide snippets that select fields and methods through values, pointers, indexes, map entries and call results (of a record that is the same in every execution, of one whose strings differ in every execution, and of a value whose Go TYPE is new in every execution), print every kind of value (time with and without TIME_FORMAT, HTML, Stringer, HTMLer, typed slices, maps), call EVERY built-in helper (also with structs and with a block), application helpers (variadic, option map, one that renders a text through its helper context), forgive unknown identifiers in every tolerated position, include partials (nested, with data, with a layout, in a loop; the text of every partial starts with a comment that is new in every run, so partial texts are always cold), nest block helpers three deep and call a function of the template recursively; calls nested 900 deep (the bound is 1000); a partial that includes itself 90 deep, by up to 32 goroutines at once (what counts the nesting counts it per execution); 12 templates that FAIL (unknown identifier after forgiven ones, in a loop on line 4, in a block, in a function; division by zero; index out of bounds; bad pattern; helper error; missing partial; partial that does not parse; wrong argument type; missing member) and 4 texts that do not parse - their error texts must equal the sequential ones; 10 boundary templates (empty, text only, comment only, one tag, one silent tag, 30 nested ifs, 4 nested loops, 300 tags, 64 KB of text, non-ASCII); random all-construct programs (shared generator, with partials and block helpers) with a snippet of any pool appended. (A2) page + layout: every goroutine executes a page that stores blocks with contentFor and then, on the same context, a layout that renders them with contentOf. (A3) prelude: a template executed ONCE, alone, on the shared parent before the goroutines start leaves 21 functions, an array and a hash there; the children call and read them (4 templates; every function value is one object shared by all children). (A4, last phase, class stored-block-in-shared-parent) the prelude stores blocks with contentFor in the shared parent, the children render them with contentOf (with data that differs per execution, in loops, with a default block). A child of the shared parent is given the values that differ per execution itself. Every concurrent result must equal the sequential result; a sequential result that fails is taken twice and the case dropped if it is not reproducible alone. (B) concurrent Parse+Exec / Render / RenderR / BuffaloRenderer of 1-6 equal and different texts with the cache on (first goroutine cold, the rest warm), texts that do not parse among them, optionally with CacheSet under keys of the goroutine. (C) 2-16 goroutines running random mixes of 15 operations - Set / Value / Has / New / New().Set / New().Value / Value(built-in) / Exec on a child, all on ONE shared context, and Value / Set / Has / New().Value / Exec on a grandchild on ONE shared child of it, Value with a key that is no string (called, not judged) - with invariants on what they may observe (a value set on a child never shows in the parent). Non-trivial = G >= 2 and the template uses >= 3 kinds of construct (A; page+layout and prelude count as 3), every B and C case; distinct by case."
 
 func setup(t *testing.T) *vk.Run {
 	r := vk.Start(t, "C14", rule,
@@ -868,6 +868,24 @@ func TestProp(t *testing.T) {
 		}
 	}
 	r.Subspace("calls nested 900 deep x G x context modes x cache modes (quick: G in {2,8}, own root, cache off)", dk, true)
+	// partials nested 90 deep (a partial that includes itself until its counter runs out): legal alone, so legal next to
+	// other executions - whatever counts the nesting counts it per execution
+	dk = 0
+	deepPartials := map[string]string{"deep": `<%= if (n > 0) { %>(<%= partial("deep", {n: n - 1}) %>)<% } else { %>bottom <%= s1 %><% } %>`}
+	for _, g := range gs {
+		for _, cx := range ctxs {
+			for _, ca := range caches {
+				if r.Quick() && !(g == 32 && ca == "off") {
+					continue
+				}
+				if mine() {
+					r.Check(runExec(r, ExecCase{Src: `<%= partial("deep", {n: 90}) %>|<%= s3 %>`, Partials: deepPartials, G: g, Ctx: cx, Cache: ca, Rounds: r.Pick(3, 4)}))
+				}
+				dk++
+			}
+		}
+	}
+	r.Subspace("partials nested 90 deep x G x context modes x cache modes (quick: G = 32, cache off)", dk, true)
 	matrix(fmt.Sprintf("%d failing templates", len(failingSnippets)), failingSnippets, widePartials, "", ctxs)
 	matrix(fmt.Sprintf("%d texts that do not parse", len(brokenSnippets)), brokenSnippets, nil, "", ctxs)
 	matrix(fmt.Sprintf("%d boundary templates", len(boundarySnippets)), boundarySnippets, nil, "", ctxs)
